@@ -490,6 +490,13 @@ def check_bind_if_absent(ctx):
         elif tnode is not None:
             ctx.bad("C01.5", f, st, "a '*name' binding is overwritten on a path that is neither 'name absent' nor 'existing entry still broadcastable'")
     need(tnode is not None, "C01.5: test of the previous binding's `#` flag not found")
+    # the broadcast of a `#` binding is delegated to numpy (trusted reference); a hand-written
+    # replacement is value-level arithmetic this family cannot judge: no verdict rather than a pass
+    bcalls = [c for fn_ in region(m, f) for c in m.calls_in(fn_) if norm(c.func).endswith("broadcast_shapes")]
+    resolved = [c for c in bcalls if norm(c.func) in ("np.broadcast_shapes", "numpy.broadcast_shapes")]
+    if not resolved:
+        raise AnalysisError("C01.5: the shapes of a `#` multi-axis binding are not broadcast with numpy.broadcast_shapes (the trusted reference); "
+                            "a hand-written broadcast cannot be judged statically")
     # the refinement must be executed on every accepting path of the refinable (previously-#) branch
     store_ids = {n.id for n in stores}
     start = [s_ for k, s_ in tnode.succ if k == true_edge]
